@@ -16,6 +16,10 @@ step = {'kind': 'set',     'in': [[k, data]..], 'pairs': [[k, tree]..]}
      | {'kind': 'fail',    'in': .., 'swallow': bool, 'onError': tree | None}   a step that raises
        ValueError (harness step vfail); save_error stores format(onError) as
        runErrors[-1]['customError']
+     | {'kind': 'pype', 'in': .., 'pipeArg': 'a0 a1'}   pypyr.steps.pype of the pipeline case['child']
+       (context_parser pypyr.parser.list) with pipeArg and useParentContext: true - the child's
+       parser binds argList to the list pype split from pipeArg, then the child's steps run on the
+       same context
      | {'kind': 'call', 'in': .., 'group': [step..], 'foreach': [tree..]?}   pypyr.steps.call of a step
        group holding `group` (inner steps carry no foreach); after each call returns,
        Step.reset_context_counters puts the step's OWN current foreach item back into context['i']
@@ -41,13 +45,13 @@ Strings and bools only come from context parsers; observations encode them as in
 """
 import json
 
-RESERVED = {'call', 'set', 'append', 'contextMerge', 'defaults', 'py', 'contextCopy', 'add', 'vfail',
+RESERVED = {'pype', 'call', 'set', 'append', 'contextMerge', 'defaults', 'py', 'contextCopy', 'add', 'vfail',
             'c12tid', 'c12turn'}
 STEP_MODULE = {'set': 'pypyr.steps.set', 'append': 'pypyr.steps.append',
                'merge': 'pypyr.steps.contextmerge', 'default': 'pypyr.steps.default',
                'py': 'pypyr.steps.py', 'copy': 'pypyr.steps.contextcopy',
                'configvars': 'pypyr.steps.configvars', 'add': 'pypyr.steps.add', 'fail': 'vfail',
-               'call': 'pypyr.steps.call'}
+               'call': 'pypyr.steps.call', 'pype': 'pypyr.steps.pype'}
 
 PARSER_MODULE = {'list': 'pypyr.parser.list', 'keys': 'pypyr.parser.keys',
                  'keyvaluepairs': 'pypyr.parser.keyvaluepairs', 'string': 'pypyr.parser.string'}
@@ -131,6 +135,8 @@ def body_arg(st):
         return 'add', '{set: ' + st['set'] + ', addMe: ' + yflow(st['addMe']) + '}'
     if k == 'fail':
         return 'vfail', '{err: ValueError, msg: boom}'
+    if k == 'pype':
+        return 'pype', '{name: child, pipeArg: ' + json.dumps(st['pipeArg']) + ', useParentContext: true}'
     return None
 
 
@@ -199,8 +205,12 @@ def has_set(t):
     return False
 
 
+def pipes_of(case):
+    return ('main', 'other', 'child') if case.get('child') else ('main', 'other')
+
+
 def all_steps(case):
-    for p in ('main', 'other'):
+    for p in pipes_of(case):
         for st in case[p]:
             yield st
             for inner in st.get('group', []):
@@ -217,7 +227,7 @@ def in_model(case):
 def roots(case):
     """[(where, tree)] in the order the Coq side loads them: main in-values, other in-values, vars."""
     out = []
-    for pname in ('main', 'other'):
+    for pname in pipes_of(case):
         for j, st in enumerate(case[pname]):
             for k, v in st.get('in', []):
                 out.append(((pname, j, k), v))
@@ -346,7 +356,16 @@ def step_blocks(st, root_index, where, var_roots):
     items = st.get('foreach')
     if st['kind'] != 'call':
         ops = list(inject)
-        body = body_ops(st)
+        if st['kind'] == 'pype':
+            # get_arguments: pipe_arg = shlex.split(pipeArg) - a NEW list for every execution; the
+            # child's pypyr.parser.list binds argList to that very list; then the child's steps
+            import shlex
+            child = ROOTS_CASE[0]['child']
+            body = [('SetFmt', 'argList', {'l': [enc(a) for a in shlex.split(st['pipeArg'])]})]
+            for m, cst in enumerate(child):
+                body += step_ops(cst, root_index, ('child', m), var_roots)
+        else:
+            body = body_ops(st)
         if items:
             ops.append(('SetFmt', '$fe', {'l': items}))
             for n in range(len(items)):
@@ -416,7 +435,11 @@ def render_op(o):
     raise ValueError(o)
 
 
+ROOTS_CASE = [None]     # the case whose ops are being compiled (a pype step needs its child)
+
+
 def pipeline_ops(case, pname, blocks=False):
+    ROOTS_CASE[0] = case
     rs = roots(case)
     root_index = {w: n for n, (w, _) in enumerate(rs)}
     var_roots = [(w[2], n) for n, (w, _) in enumerate(rs) if w[0] == 'vars']
